@@ -412,3 +412,37 @@ def run_special_case(pi, vi, opi, neg):
     n1, _ = _get_pattern_normalizer().transform(create_pattern_object(text, version="2.1"))
     n2, _ = _get_pattern_normalizer().transform(create_pattern_object(str(n1), version="2.1"))
     return observation_expression_cmp(n1, n2) == 0
+
+
+# ---------------------------------------------------------------- qualifier order: zero iff the same qualifier (START/STOP, WITHIN, REPEATS)
+from stix2.patterns import StartStopQualifier  # noqa: E402
+
+
+def mk_qual(kind, a, b):
+    if kind == 0:
+        q = RepeatQualifier.__new__(RepeatQualifier)
+        q.times_to_repeat = raw(IntegerConstant, a)
+    elif kind == 1:
+        q = WithinQualifier.__new__(WithinQualifier)
+        q.number_of_seconds = raw(IntegerConstant, a)
+    else:
+        q = StartStopQualifier.__new__(StartStopQualifier)
+        q.start_time = raw(IntegerConstant, a)        # integers stand for instants: only their order is used
+        q.stop_time = raw(IntegerConstant, b)
+    return QualifiedObservationExpression(leaf(1), q)
+
+
+def qualifier_order_laws(k1: int, a1: int, b1: int, k2: int, a2: int, b2: int, k3: int, a3: int, b3: int) -> bool:
+    """
+    pre: 0 <= k1 <= 2 and 0 <= k2 <= 2 and 0 <= k3 <= 2
+    post: _
+    """
+    k1, k2, k3 = pick(k1, 3), pick(k2, 3), pick(k3, 3)
+    x, y, z = mk_qual(k1, a1, b1), mk_qual(k2, a2, b2), mk_qual(k3, a3, b3)
+    xy, yx = observation_expression_cmp(x, y), observation_expression_cmp(y, x)
+    yz, xz = observation_expression_cmp(y, z), observation_expression_cmp(x, z)
+    V.reached()
+    same = k1 == k2 and a1 == a2 and (k1 != 2 or b1 == b2)
+    if (xy == 0) != same or sgn(xy) != -sgn(yx) or observation_expression_cmp(x, x) != 0:
+        return False
+    return not (xy <= 0 and yz <= 0) or xz <= 0
